@@ -671,6 +671,13 @@ Section FieldProofs.
       apply beq_spec in Hp. subst b'. reflexivity.
     - (* FBigSize *) apply N.ltb_lt in Hv. eexists; split; [reflexivity|]. intros r.
       cbn [Model.dec_f]. rewrite bigsize_dec_enc by assumption. reflexivity.
+    - (* FScids *) apply andb_true_iff in Hv. destruct Hv as [Hv Hs].
+      apply andb_true_iff in Hv. destruct Hv as [_ Hl]. rewrite Hl. apply N.leb_le in Hl.
+      eexists; split; [reflexivity|]. intros r.
+      cbn [Model.dec_f]. rewrite <- app_assoc, read_be_app, pow2, N.mod_small by lia.
+      assert (Hz : (blen b + 1 =? 0) = false) by (apply N.eqb_neq; lia). rewrite Hz.
+      replace (blen b + 1) with (blen (0 :: b)) by (unfold blen; cbn [length]; lia).
+      rewrite take_app. cbn [N.eqb andb]. rewrite Hs. reflexivity.
   Qed.
 
   (* terminal fields swallow the rest *)
@@ -686,12 +693,12 @@ Section FieldProofs.
 
   (* L2: whatever a field decoder returns is valid, and re-encodes no longer *)
   Lemma field_dec_valid k b v r :
-    wf_bytes b -> dec_f k b = Some (v, r) ->
+    nogrow_f k = true -> wf_bytes b -> dec_f k b = Some (v, r) ->
     valid_f k v = true /\ wf_bytes r /\
     exists e, enc_f k v = Some e /\ (length e + length r <= length b)%nat /\
               (exact_f k = true -> b = e ++ r).
   Proof.
-    intros Hw. destruct k; cbn [Model.dec_f].
+    intros Hng Hw. destruct k; cbn [Model.dec_f].
     - (* FU *) destruct (read_be k b) as [[x t]|] eqn:E; [|discriminate].
       intros H; inversion H; subst. apply read_be_spec in E; [|assumption].
       destruct E as (-> & Hx & Ht). cbn [valid_f enc_f]. split; [apply N.ltb_lt; assumption|].
@@ -792,6 +799,7 @@ Section FieldProofs.
       intros H; inversion H; subst. apply bigsize_dec_spec in E; [|assumption].
       destruct E as (-> & Hx & Ht). cbn [valid_f enc_f]. split; [apply N.ltb_lt; assumption|].
       split; [assumption|]. eexists; split; [reflexivity|]. split; [rewrite app_length; lia|auto].
+    - (* FScids *) discriminate Hng.
     - (* FRest *) intros H; inversion H; subst. cbn [valid_f enc_f].
       split; [apply wf_bytesb_spec; assumption|]. split; [constructor|].
       eexists; split; [reflexivity|]. split; [cbn; lia|]. intros _. rewrite app_nil_r. reflexivity.
@@ -799,6 +807,36 @@ Section FieldProofs.
       intros H; inversion H; subst. cbn [valid_f enc_f].
       split; [rewrite Et, (proj2 (wf_bytesb_spec _) Hw); reflexivity|]. split; [constructor|].
       eexists; split; [reflexivity|]. split; [cbn; lia|]. intros _. rewrite app_nil_r. reflexivity.
+  Qed.
+
+  (* ... for every field kind; the short-channel-id list may grow by one byte (the empty
+     list `00 00` re-encodes with its encoding byte: `00 01 00`) *)
+  Lemma field_dec_valid_any k b v r :
+    wf_bytes b -> dec_f k b = Some (v, r) ->
+    valid_f k v = true /\ wf_bytes r /\
+    exists e, enc_f k v = Some e /\
+              (nogrow_f k = true -> (length e + length r <= length b)%nat) /\
+              (exact_f k = true -> b = e ++ r).
+  Proof.
+    intros Hw Hd. destruct (nogrow_f k) eqn:Hng.
+    { destruct (field_dec_valid k b v r Hng Hw Hd) as (H1 & H2 & e & H3 & H4 & H5).
+      split; [assumption|]. split; [assumption|]. exists e. auto. }
+    destruct k; try discriminate Hng. cbn [Model.dec_f] in Hd.
+    destruct (read_be 2 b) as [[n t]|] eqn:E; [|discriminate].
+    apply read_be_spec in E; [|assumption]. destruct E as (-> & Hn & Ht). rewrite pow2 in Hn.
+    destruct (N.eqb_spec n 0) as [->|Hn0].
+    - injection Hd as <- <-. split; [reflexivity|]. split; [assumption|].
+      eexists; split; [reflexivity|]. split; discriminate.
+    - destruct (take n t) as [[[|e ids] r']|] eqn:E2; try discriminate.
+      destruct ((e =? 0) && scids_ok ids) eqn:Ec; [|discriminate]. injection Hd as <- <-.
+      apply andb_true_iff in Ec. destruct Ec as [_ Hs].
+      apply take_spec in E2. destruct E2 as [-> Hlen]. apply wf_app in Ht. destruct Ht as [Hh Hr].
+      inversion Hh as [|? ? _ Hids]; subst.
+      assert (Hle : (blen ids + 1 <=? 65535) = true).
+      { apply N.leb_le. unfold blen in *. cbn [length] in Hn. lia. }
+      cbn [valid_f enc_f]. rewrite Hle, Hs, (proj2 (wf_bytesb_spec _) Hids).
+      split; [reflexivity|]. split; [assumption|]. eexists; split; [reflexivity|].
+      split; discriminate.
   Qed.
 
   Lemma dec_f_terminal_rest k b v r :
@@ -865,7 +903,8 @@ Section FieldProofs.
   Lemma decode_rest_valid L : forall b vs r,
     wf_bytes b -> decode_rest L b = Some (vs, r) ->
     valid_vs L vs = true /\
-    exists e, encode L vs = Some e /\ (length e + length r <= length b)%nat /\
+    exists e, encode L vs = Some e /\
+              (forallb nogrow_f L = true -> (length e + length r <= length b)%nat) /\
               (forallb exact_f L = true -> b = e ++ r).
   Proof.
     induction L as [|k L IH]; intros b vs r Hw.
@@ -873,10 +912,12 @@ Section FieldProofs.
     - cbn [decode_rest]. destruct (dec_f k b) as [[v r1]|] eqn:E; [|discriminate].
       destruct (decode_rest L r1) as [[vs' r']|] eqn:E2; [|discriminate].
       intros H; inversion H; subst.
-      destruct (field_dec_valid k b v r1 Hw E) as (Hv & Hw1 & e1 & He1 & Hl1 & Hx1).
+      destruct (field_dec_valid_any k b v r1 Hw E) as (Hv & Hw1 & e1 & He1 & Hl1 & Hx1).
       destruct (IH r1 vs' r Hw1 E2) as (Hvs & e2 & He2 & Hl2 & Hx2).
       cbn [Model.valid_vs Model.encode]. rewrite Hv, Hvs, He1, He2. split; [reflexivity|].
-      exists (e1 ++ e2). split; [reflexivity|]. split; [rewrite app_length; lia|].
+      exists (e1 ++ e2). split; [reflexivity|]. split.
+      { cbn [forallb]. intros Hng. apply andb_true_iff in Hng. destruct Hng as [Hk HL].
+        specialize (Hl1 Hk). specialize (Hl2 HL). rewrite app_length. lia. }
       cbn [forallb]. intros Hex. apply andb_true_iff in Hex. destruct Hex as [Hk HL].
       rewrite (Hx1 Hk), (Hx2 HL), app_assoc. reflexivity.
   Qed.
@@ -903,13 +944,15 @@ Section FieldProofs.
 
   Theorem layout_fixpoint L b vs :
     lay_ok L = true -> wf_bytes b -> decode L b = Some vs ->
-    exists b', encode L vs = Some b' /\ decode L b' = Some vs /\ (length b' <= length b)%nat.
+    exists b', encode L vs = Some b' /\ decode L b' = Some vs /\
+               (forallb nogrow_f L = true -> (length b' <= length b)%nat).
   Proof.
     intros Hok Hw Hd. rewrite decode_decode_rest in Hd.
     destruct (decode_rest L b) as [[vs0 r]|] eqn:E; [|discriminate]. inversion Hd; subst vs0.
     destruct (decode_rest_valid L b vs r Hw E) as (Hv & e & He & Hl & _).
     destruct (layout_roundtrip L vs Hok Hv) as (b' & Hb' & Hd').
-    rewrite He in Hb'. inversion Hb'; subst b'. exists e. repeat split; auto. lia.
+    rewrite He in Hb'. inversion Hb'; subst b'. exists e. repeat split; auto.
+    intros Hng. specialize (Hl Hng). lia.
   Qed.
 
   Theorem layout_canonical L b vs :
